@@ -212,6 +212,54 @@ theorem EscShape.charEscape {c : UInt8} {t acc acc' : List UInt8} {n : Nat} {k :
   · exact ⟨_, rfl, .scalar hc ht hn⟩
   · exact ⟨_, rfl, .byte _ hc ht⟩
 
+/-- the arm of the escaped blank: nothing is appended, nothing more is consumed, and the byte that
+    follows (if there is one) is not a continuation byte -/
+theorem blank_arm_ok {acc acc' : List UInt8} {k : ElispEscape} {s s' : St}
+    (h : (do
+      match (← peek) with
+      | some b => if 128 ≤ b && b ≤ 191 then errAt .invalidUnicodeCodePoint
+                  else pure (acc, ElispEscape.indeterminate)
+      | none => pure (acc, ElispEscape.indeterminate) : P (List UInt8 × ElispEscape)) s
+        = .ok (acc', k) s') :
+    (acc, ElispEscape.indeterminate) = (acc', k) ∧ s'.rd.rest = s.rd.rest ∧
+      (s'.rd.rest = [] ∨ Head s'.rd.rest) := by
+  obtain ⟨o, s2, hp, h⟩ := bind_ok h
+  obtain ⟨_, hr2, ho⟩ := peek_ok hp
+  cases o with
+  | none =>
+    obtain ⟨h1, h2⟩ := pure_ok h
+    subst h2
+    refine ⟨h1, hr2, Or.inl ?_⟩
+    cases hrs : s.rd.rest with
+    | nil => rw [hr2, hrs]
+    | cons x xs => rw [hrs] at ho; cases ho
+  | some b =>
+    dsimp only at h
+    rcases ite_ok h with ⟨_, h⟩ | ⟨hb, h⟩
+    · simp [errAt] at h
+    · obtain ⟨h1, h2⟩ := pure_ok h
+      subst h2
+      refine ⟨h1, hr2, Or.inr ?_⟩
+      cases hrs : s.rd.rest with
+      | nil => rw [hrs] at ho; cases ho
+      | cons x xs =>
+        rw [hrs] at ho
+        cases ho
+        refine ⟨b, xs, by rw [hr2, hrs], ?_⟩
+        cases hcc : isCont b with
+        | false => rfl
+        | true =>
+          exfalso
+          apply hb
+          simp only [isCont, Bool.and_eq_true, decide_eq_true_eq] at hcc
+          simp only [Bool.and_eq_true, decide_eq_true_eq]
+          refine ⟨hcc.1, ?_⟩
+          have := hcc.2
+          rw [UInt8.lt_iff_toNat_lt] at this
+          rw [UInt8.le_iff_toNat_le]
+          simp at this ⊢
+          omega
+
 set_option hygiene false in
 local macro "esc_one" : tactic => `(tactic| (
   rcases ite_ok h with ⟨hc, h⟩ | ⟨_, h⟩
@@ -232,9 +280,9 @@ theorem parseElispEscape_shape {fuel : Nat} {acc acc' : List UInt8} {k : ElispEs
   esc_one   -- `\`
   -- blank
   rcases ite_ok h with ⟨hc, h⟩ | ⟨_, h⟩
-  · obtain ⟨h1, h2⟩ := pure_ok h
-    cases h1; subst h2
-    rw [eq_of_beq hc] at hr1
+  · obtain ⟨hk, hs2, _⟩ := blank_arm_ok h
+    cases hk
+    rw [eq_of_beq hc, ← hs2] at hr1
     exact ⟨32, [], [], hr1, by simp, .blank⟩
   esc_one; esc_one; esc_one; esc_one; esc_one; esc_one; esc_one; esc_one; esc_one; esc_one
   -- `^`
@@ -350,6 +398,29 @@ theorem parseElispEscape_shape {fuel : Nat} {acc acc' : List UInt8} {k : ElispEs
       rw [UInt8.le_iff_toNat_le]
       simp at this ⊢
       omega
+
+/-- **The escaped blank** (the arm changed by the repair): a successful escape whose first byte is
+    a blank appends nothing, consumes that byte only, and leaves an input that is empty or starts
+    with a byte that is not a continuation byte. -/
+theorem parseElispEscape_blank_next {fuel : Nat} {acc acc' : List UInt8} {k : ElispEscape}
+    {s s' : St} {r : List UInt8} (h : parseElispEscape fuel acc s = .ok (acc', k) s')
+    (hb : s.rd.rest = 32 :: r) :
+    acc' = acc ∧ k = .indeterminate ∧ s'.rd.rest = r ∧ (r = [] ∨ Head r) := by
+  unfold parseElispEscape at h
+  obtain ⟨c, s1, hn, h⟩ := bind_ok h
+  obtain ⟨_, hr1⟩ := nextOrEof_ok hn
+  rw [hb] at hr1
+  cases hr1
+  rcases ite_ok h with ⟨hc, _⟩ | ⟨_, h⟩
+  · exact absurd hc (by decide)
+  rcases ite_ok h with ⟨hc, _⟩ | ⟨_, h⟩
+  · exact absurd hc (by decide)
+  rcases ite_ok h with ⟨_, h⟩ | ⟨hc, _⟩
+  · obtain ⟨hk, hs2, hhead⟩ := blank_arm_ok h
+    cases hk
+    rw [hs2] at hhead
+    exact ⟨rfl, rfl, hs2, hhead⟩
+  · exact absurd (by decide) hc
 
 end InLoop
 end Parse
